@@ -23,6 +23,7 @@ type Config struct {
 	Batch            int  // 0 stream, k>0: |window().periodCount(k).everyCount(k) before alert
 	All              bool // .all() (batch only)
 	Flap             bool // .flapping(0.25,0.5).history(4)
+	FlapAlt          bool // with Flap: .flapping(0.3,0.7).history(6) instead
 	History          int  // .history(n) without flapping (0 = default 21)
 }
 
@@ -86,7 +87,9 @@ func (c Config) script() string {
 	if c.All {
 		sb.WriteString(".all()")
 	}
-	if c.Flap {
+	if c.Flap && c.FlapAlt {
+		sb.WriteString(".flapping(0.3, 0.7).history(6)")
+	} else if c.Flap {
 		sb.WriteString(".flapping(0.25, 0.5).history(4)")
 	}
 	if c.History > 0 {
@@ -245,8 +248,15 @@ type model struct {
 	// flapping (configuration .flapping(0.25, 0.5).history(4)): the documented rule is a hysteresis on the percentage
 	// of state changes in the history: above high -> flapping, below low -> not flapping, in between unchanged
 	flapping bool
-	ring     [4]alert.Level
+	ring     []alert.Level
 	ridx     int
+}
+
+func (c Config) flapParams() (hist int, low, high float64) {
+	if c.FlapAlt {
+		return 6, 0.3, 0.7
+	}
+	return 4, 0.25, 0.5
 }
 
 // flapPercent: the weighted percentage of state changes in the history: the history holds l levels, hence l-1
@@ -288,12 +298,18 @@ func (m *model) step(l alert.Level, t int64) expect {
 		if changed && prev == alert.OK {
 			m.firstTrig = t // the ID left OK, whether or not an event goes out
 		}
+		hl, low, high := c.flapParams()
+		if m.ring == nil {
+			m.ring = make([]alert.Level, hl)
+		} else {
+			m.ring = append([]alert.Level(nil), m.ring...) // models are copied by value during the search
+		}
 		m.ridx = (m.ridx + 1) % len(m.ring)
 		m.ring[m.ridx] = l
 		switch p := m.flapPercent(); {
-		case m.flapping && p < 0.25:
+		case m.flapping && p < low:
 			m.flapping = false
-		case !m.flapping && p > 0.5:
+		case !m.flapping && p > high:
 			m.flapping = true
 		}
 		// while flapping nothing goes out; a batch alert still reports the recovery
@@ -333,8 +349,9 @@ func (m *model) absState(t int64) string {
 	h := ""
 	if m.cfg.Flap {
 		n := len(m.hist)
-		if n > 4 {
-			h = fmt.Sprint(m.hist[n-4:])
+		hl, _, _ := m.cfg.flapParams()
+		if n > hl {
+			h = fmt.Sprint(m.hist[n-hl:])
 		} else {
 			h = fmt.Sprint(m.hist)
 		}
@@ -708,6 +725,9 @@ func configs(thorough bool) []Config {
 			r = append(r, Config{Info: true, Warn: true, Crit: true, Thresholds: true, SCO: sco, Batch: batch, Flap: true})
 		}
 	}
+	// a longer history and wider thresholds
+	r = append(r, Config{Info: true, Warn: true, Crit: true, Thresholds: true, Flap: true, FlapAlt: true},
+		Config{Info: true, Warn: true, Crit: true, Thresholds: true, SCO: 1, Batch: 2, Flap: true, FlapAlt: true})
 	return r
 }
 
@@ -903,6 +923,9 @@ func key(c Config, kind string) string {
 	}
 	if c.Flap {
 		mode += "+flap"
+	}
+	if c.FlapAlt {
+		mode += "6"
 	}
 	return kind + ":" + mode
 }
